@@ -965,3 +965,58 @@ def r_validated_before_use(ck, P, rid):
         for k in sorted(uses):
             if k not in N.get(f, {}):
                 ck.saw(f); ck.ok(R, '%s validates %s before its derived state is read' % (f.name, f.params[k][0]))
+
+
+DESTRUCTORS = ('_fini',)      # functions whose contract is that the object is dead afterwards (image, region, iterator fini)
+
+
+def r_no_dangling_after_free(ck, P, rid):
+    """T-PAIR: a resource freed out of a live object is replaced before the function returns, on every path"""
+    R = ck.rule(rid, 'outside destructors, whenever a function frees memory held in a field of an object it was given (free (obj->field), or the fini of a region embedded in or pointed to by a parameter), every path from there to a return stores a new value into that field or re-initialises the region: no failure path returns with the field still pointing at freed memory', floor=6)
+    n = 0
+    for f in P.functions():
+        if f.name.endswith(DESTRUCTORS):
+            continue
+        for c in f.calls():
+            if c.callee == 'free':
+                v = f.v(f.strip_casts(c.a[0]))
+                if v is None or v.op != 'load':
+                    continue
+                p = f.path(v.a[0]); rt = f.root(p)
+                if rt[0] != 'arg':
+                    continue
+                key = f.pstr(p); objarg = rt[1]
+                what = 'free (%s)' % key
+                objkey = None
+            elif isinstance(c.callee, str) and c.callee.endswith('_fini') and 'region' in c.callee and c.a:
+                p = f.path(c.a[0]); rt = f.root(p)
+                if rt[0] != 'arg':
+                    continue
+                key = f.pstr(p); objarg = rt[1]
+                what = '%s (%s)' % (c.callee, key)
+                objkey = key
+            else:
+                continue
+            n += 1; ck.saw(f)
+
+            def barrier(y, key=key, objkey=objkey, objarg=objarg):
+                if y.op == 'store':
+                    t = f.pstr(f.path(y.a[1]))
+                    if t == key or (objkey is not None and t.startswith(objkey) and t.endswith('.data')):
+                        return True
+                if y.op == 'call' and isinstance(y.callee, str):
+                    if y.callee == 'free' and f.strip_casts(y.a[0])[:2] == ['a', objarg]:
+                        return True                      # the object itself is released
+                    if ('_init' in y.callee or '_copy' in y.callee) and y.a:
+                        t = f.pstr(f.path(y.a[0]))
+                        if t == (objkey or key) or key.startswith(t + '/'):
+                            return True                  # re-initialised
+                return False
+
+            esc = f.reach_avoiding(c, barrier, lambda y: y.op == 'ret')
+            if esc is None:
+                ck.ok(R, '%s: %s is followed by a new value on every path' % (f.name, what))
+            else:
+                ck.violation(R, f.name, 'dangling field after %s' % what, '%s can return (%s) after %s without storing a new value there: on that path - an allocation failure in between - the object keeps a pointer to freed memory, which is used again and freed a second time later' % (f.name, esc.loc(), what), c.loc())
+    if n == 0:
+        ck.incomplete(R, 'no free of a field of a parameter object found outside destructors')
